@@ -442,3 +442,18 @@ pub proof fn lemma_acc_same(g: Gr, a: int, b: int)
     ensures (g.acc)(a) == (g.acc)(b)
 {
 }
+
+/// every transition target of the automaton handed to the minimizer is one of its states
+pub proof fn lemma_targets_in_range(g: Gr, sts: Seq<StateData>, reps: Seq<StateID>, t: Set<Edge>)
+    requires
+        trans_sound(g, t, reps, reps.len() as int), sts.len() == reps.len(),
+        forall|f: int, cc: CharClassID, to: StateSetID| 0 <= f < reps.len() ==> (#[trigger] sts[f].transitions@.contains((cc, to)) <==> t.contains((StateSetID(f as u32), cc, to))),
+    ensures forall|s: int, k: int| 0 <= s < sts.len() && 0 <= k < sts[s].transitions@.len() ==> (#[trigger] sts[s].transitions@[k]).1.0 < sts.len()
+{
+    reveal(trans_sound);
+    assert forall|s: int, k: int| 0 <= s < sts.len() && 0 <= k < sts[s].transitions@.len() implies (#[trigger] sts[s].transitions@[k]).1.0 < sts.len() by {
+        let e = sts[s].transitions@[k];
+        assert(sts[s].transitions@.contains((e.0, e.1)));
+        assert(t.contains((StateSetID(s as u32), e.0, e.1)));
+    }
+}
